@@ -50,6 +50,7 @@ typedef struct {
     size_t out_n;
     int backend;                 /* back end observed at the first successful init (-1 none) */
     int canary_damage;           /* op index +1 of first canary damage, 0 none */
+    int rejected_wrote;          /* op index +1 of the first call that returned 0 but changed its output buffer, 0 none */
     long canary_where;
 } ctrans;
 
